@@ -33,6 +33,7 @@ DEST_WRITERS = {"memcpy", "memset", "memmove", "strcpy", "strncpy", "strcat", "s
 DEST_WRITERS |= {"__builtin_" + n for n in list(DEST_WRITERS)} | {"__builtin___%s_chk" % n for n in list(DEST_WRITERS)}
 DEST_WRITERS |= {"__%s_chk" % n for n in ("memcpy", "memset", "memmove", "strcpy", "strncpy", "strcat", "strncat",
                                         "sprintf", "snprintf", "vsprintf", "vsnprintf")}
+ERR_FIELDS = {"isInstanceError", "errStr"}     # members of tjinstance (src/turbojpeg.c)
 CHARISH = re.compile(r"^(const |volatile )*(unsigned char|signed char|char)( const| volatile)*$")
 
 
@@ -106,6 +107,7 @@ class TU:
         self.libc = []          # (callee, file, fn, arg, guard)
         self.calls = []         # (callee, file, fn)
         self.fnsum = {}         # fn -> [byte_lvalues, byte_ptr_args]
+        self.fieldw = set()     # (fn, field, how): writes of the per-instance error-state fields
         self.fn = ""
         self.text = {}
 
@@ -239,6 +241,16 @@ class TU:
                     self.alias_uses.append((key, self.fn, lname, how if cat != "read" else "read-value"))
         elif k == "CallExpr":
             self.call(n, path)
+            name = self.callee_name(n)
+            if name in DEST_WRITERS and len(n.get("inner", [])) > 1:
+                m = self.strip(n["inner"][1])
+                if m.get("kind") == "MemberExpr" and m.get("name") in ERR_FIELDS:
+                    self.fieldw.add((self.fn, m.get("name"), "dest:" + name))
+        elif k in ("BinaryOperator", "CompoundAssignOperator") and (n.get("opcode") == "=" or k == "CompoundAssignOperator") and n.get("inner"):
+            m = self.strip(n["inner"][0])
+            if m.get("kind") == "MemberExpr" and m.get("name") in ERR_FIELDS:
+                v = self.strip(n["inner"][1]) if len(n["inner"]) > 1 else {}
+                self.fieldw.add((self.fn, m.get("name"), v.get("value", "?") if v.get("kind") == "IntegerLiteral" else "?"))
         if k in ("UnaryOperator", "ArraySubscriptExpr") and n.get("valueCategory") == "lvalue":
             if (k != "UnaryOperator" or n.get("opcode") == "*") and CHARISH.match(qt(n)) and self.fn in self.fnsum:
                 self.fnsum[self.fn][0] += 1
@@ -247,6 +259,12 @@ class TU:
             path.append((n, i))
             self.visit(c, path)
             path.pop()
+
+    @staticmethod
+    def strip(e):
+        while isinstance(e, dict) and e.get("kind") in ("ImplicitCastExpr", "ParenExpr", "CStyleCastExpr") and e.get("inner"):
+            e = e["inner"][0]
+        return e if isinstance(e, dict) else {}
 
     @staticmethod
     def callee_name(call):
@@ -443,6 +461,9 @@ class TU:
                     if pointee_is_const(ptype):
                         return ("constalias", "const-arg%d:%s" % (idx - 1, name))
                     return ("escape", "%sarg%d:%s" % (pre, idx - 1, name))
+                elif k == "AtomicExpr":
+                    # __atomic_* / __c11_atomic_* builtins on the object: the first operand is the object accessed
+                    return ("write", "atomic-rmw") if idx == 0 else ("escape", "atomic-operand")
                 elif k == "InitListExpr":
                     in_initlist = True
                 elif k == "VarDecl":
@@ -491,7 +512,7 @@ def analyse(job):
             "vars": [[list(k), v] for k, v in tu.vars.items()],
             "uses": [[list(u[0])] + list(u[1:]) for u in tu.uses],
             "alias_uses": [[list(u[0])] + list(u[1:]) for u in tu.alias_uses],
-            "libc": tu.libc, "calls": tu.calls, "fnsum": tu.fnsum}
+            "libc": tu.libc, "calls": tu.calls, "fnsum": tu.fnsum, "fieldw": sorted(tu.fieldw)}
 
 
 # ----------------------------------------------------------------- asm
@@ -602,6 +623,7 @@ def main():
 
     # ---- merge
     vars_, uses, alias_uses, libc, calls, fnsum = {}, {}, {}, set(), set(), {}
+    fieldw = set()
     ext_defs = {}
     for r, job in zip(results, jobs):
         mult = cjobs[job]
@@ -622,6 +644,8 @@ def main():
             libc.add(tuple(l))
         for c in r["calls"]:
             calls.add(tuple(c))
+        for fw in r["fieldw"]:
+            fieldw.add(tuple(fw))
         for f, s in r["fnsum"].items():
             old = fnsum.get(f)
             fnsum[f] = [max(s[0], old[0]), max(s[1], old[1])] if old else list(s)
@@ -708,8 +732,10 @@ def main():
             cs = c
         else:
             cs = "(%s [%s])" % (c[0], "; ".join(site(u) for u in c[1]))
-        rows.append("  mk_gvar %s %s %s %s %s %d %s" % (coq_str(v["name"]), coq_str(v["file"]), coq_str(v["fn"]),
-                                                        coq_str(v["link"]), coq_str(v["type"]), len(v["objs"]), cs))
+        tus = sorted(set(os.path.basename(o[0]) + ".o" for o in v["objs"]))
+        rows.append("  mk_gvar %s %s %s %s %s %d [%s] %s" % (coq_str(v["name"]), coq_str(v["file"]), coq_str(v["fn"]),
+                                                             coq_str(v["link"]), coq_str(v["type"]), len(v["objs"]),
+                                                             "; ".join(coq_str(t) for t in tus), cs))
     o.append(";\n".join(rows) + "\n].\n")
     o.append("(* functions writing the thread-local objects: (object, file, function, number of write sites) *)")
     o.append("Definition tls_writers : list (string * string * string * Z) := [")
@@ -726,6 +752,15 @@ def main():
     o.append("(* (caller, callee) for every call of a function that contains an environment-writing site *)")
     o.append("Definition env_writer_callers : list (string * string) := [")
     o.append(";\n".join("  (%s, %s)" % (coq_str(a), coq_str(b)) for a, b in writer_callers) + "\n].\n")
+    if not any(f[0] == "set_instance_error" for f in fieldw) or not any(f[1] == "isInstanceError" and f[2] == "0" for f in fieldw):
+        die("src/turbojpeg.c: the per-instance error state (isInstanceError / errStr, set_instance_error) is no longer written the way the model assumes")
+    o.append("(* writes of the per-instance error-state members of tjinstance: (function, member, value | dest:callee) *)")
+    o.append("Definition errstate_writes : list (string * string * string) := [")
+    o.append(";\n".join("  (%s, %s, %s)" % tuple(coq_str(x) for x in f) for f in sorted(fieldw)) + "\n].\n")
+    o.append("(* callers of the functions that record a libjpeg-level message *)")
+    o.append("Definition errstate_calls : list (string * string) := [")
+    ec = sorted({(c[2], c[0]) for c in calls if c[0] in ("set_instance_error", "my_output_message") and c[2]})
+    o.append(";\n".join("  (%s, %s)" % (coq_str(a), coq_str(b)) for a, b in ec) + "\n].\n")
     o.append("Definition escapes : list escape_info := [")
     rows = []
     for e in escs:
